@@ -134,6 +134,9 @@ func cmdCheck(args []string) int {
 	if s := os.Getenv("VERIF_SEED"); s != "" {
 		fmt.Sscan(s, &cfg.seed)
 	}
+	// quick: 10 s per solver stage (3 s first stage, case split, then a race of three solvers). Longer limits
+	// were tried and made things worse: the queries that are never decided (covers, the axiom probe) then
+	// hold the cores for three times as long and starve the obligations that pass.
 	cfg.timeoutMs = 10000
 	if cfg.tier == "thorough" {
 		cfg.timeoutMs = 60000
